@@ -96,6 +96,16 @@ def directed_schedules(prop):
                     fill = ["W", "W"] * (2 + cap) + ["W"] * cap
                     steps = fill + ["A"] * block + ["R"] * (3 + cap) + ["W"] + ["A"] * (2 * T + 2) + ["R", "W", "W", "A", "R", "C", "A", "R", "R"]
                     out.append(mk("join", 2, T, inacc, cap, False, steps=steps, src="directed:blocked-write-then-short"))
+    if prop in ("C09", "C03"):
+        # unite: the next input slice does not fit (overflow without an exact fill), the accumulated slice is delivered, and then
+        # the input goes quiet: the remainder may only be flushed Timeout after THAT delivery
+        for J in (3, 4):
+            for T, inacc in ((4, 25), (4, 50), (6, 34)):
+                for lead in (1, 2, 3):
+                    for nocopy in (False, True):
+                        rl = ["R", "L"] if nocopy else ["R"]
+                        steps = ["A"] * lead + ["W%d" % (J - 1), "W2"] + rl + ["A"] * (2 * T + 2) + rl + ["W1"] + ["A"] * (2 * T + 2) + rl + ["C", "A"] + rl + rl
+                        out.append(mk("unite", J, T, inacc, 1, nocopy, steps=steps, src="directed:overflow-then-lull"))
     if prop in ("C10", "C09"):
         # the last pass came from a FULL join (passAt off the tick grid), one element is buffered, and another one arrives after
         # the accumulation period expired but before the next tick
